@@ -56,6 +56,21 @@ pub open spec fn indication_progress_ok(i: Indication, progress: u64) -> bool {
     }
 }
 
+/// C18 / C04: a Finished (or fault/abandon) indication carries the outcome the transaction holds
+pub open spec fn indication_outcome_ok(i: Indication, condition: Condition, delivery_code: DeliveryCode, file_status: FileStatusCode) -> bool {
+    match i {
+        Indication::Finished(f) => f.delivery_code == delivery_code && f.file_status == file_status && f.report.condition == condition,
+        _ => true,
+    }
+}
+
+pub open spec fn pdu_finished(p: PDU) -> Option<Finished> {
+    match p.payload {
+        PDUPayload::Directive(Operations::Finished(f)) => Some(f),
+        _ => None,
+    }
+}
+
 /// the action configured for a condition (Cancel when none is configured)
 pub open spec fn configured_action(c: TransactionConfig, cond: Condition) -> FaultHandlerAction {
     if c.fault_handler_override@.contains_key(cond) { c.fault_handler_override@[cond] } else { FaultHandlerAction::Cancel }
